@@ -1492,3 +1492,40 @@ def set_ops(I, args, callee):
         out = [Ref(en, 0) for en in a.entries if map_find(I, b, en[0]) is None] + \
               [Ref(en, 0) for en in b.entries if map_find(I, a, en[0]) is None]
     return IterV('list', items=out, pos=0)
+
+
+# ============================================================ closures through the Fn* traits, Default
+
+@model('FnMut::call_mut', 'Fn::call', 'FnOnce::call_once', '<F as FnMut>::call_mut', '<F as Fn>::call', '<F as FnOnce>::call_once')
+def fn_trait_call(I, args, callee):
+    tup = args[1]
+    return I.call_value(args[0], list(tup.fields))
+
+
+@model('Default::default', '<T as Default>::default')
+def default_default(I, args, callee):
+    from .srcinfo import type_head
+    q = I.parse_qualified(callee)
+    t = q[0].strip() if q else ''
+    h = type_head(t)
+    if h in INT_TYPES:
+        return 0
+    if h == 'bool':
+        return False
+    if h in ('f32', 'f64'):
+        return 0.0
+    if h == 'String':
+        return StringV([])
+    if h in ('Vec', 'VecDeque'):
+        return VecV([])
+    if h in ('HashMap', 'BTreeMap'):
+        return MapV(False)
+    if h in ('HashSet', 'BTreeSet'):
+        return MapV(True)
+    if h == 'Option':
+        return none()
+    if h in ('BuildHasherDefault', 'RandomState', 'PhantomData', 'FnvHasher'):
+        return Opaque(h)
+    if h == '()':
+        return unit()
+    raise Unmodelled('Default::default for ' + t)
